@@ -38,7 +38,7 @@ Extraction "model"
   c05_window_ok c05_zero_window_ok c05_rto_single_ok c05_monitor_ok c05_zero_window_strict c05_d16_class
   c06_backoff_ok c06_cap_ok c06_emitted_live_ok c06_fast_retx_ok c06_stable_plen_ok c06_joint_ok
   ACK_DELAY IMMEDIATE_ACK_EVERY_RMSS
-  c07_immediate_ok c07_pre_monitor c07_delayed_ok c07_fires_ok c07_idle_silent_partial
+  c07_immediate_ok c07_pre_monitor c07_delayed_ok c07_fires_ok c07_idle_silent_partial c07_window_update_ok
   c18_nagle_ok c18_pre_monitor
   pair_new_cubic ptrace_cubic c01_dir_bad c01_dir_ok c01_pair_ok c01_pair_guarded c01_kf1_class c01_kf1_class_dir
   c01_d17_class c01_d17_class_dir dchk0 pkt_size hacc_add hacc0
